@@ -850,11 +850,11 @@ Definition ccX (left : nat) (stack : list str) (e : pyexn) : Prop :=
 
 Lemma check_cycle_spec : forall left name stack line,
   lok L line -> NoDup stack -> incl stack (map g_name groups) ->
-  vprop (lok L) (ccX left stack) (check_cycle groups left name stack line).
+  vprop (lok L) (ccX left stack) (check_cycle_rec groups left name stack line).
 Proof.
   induction left as [|left' IH]; intros name stack line Hl Hnd Hin.
   - simpl. split; [reflexivity|]. pose proof (stack_bound _ _ Hnd Hin). lia.
-  - cbn [check_cycle]. destruct (smem name stack) eqn:Es.
+  - cbn [check_cycle_rec]. destruct (smem name stack) eqn:Es.
     + destruct left'; simpl; [|assumption]. split; [reflexivity|]. pose proof (stack_bound _ _ Hnd Hin). lia.
     + destruct (find_group groups name) as [g|] eqn:Ef; [|exact I].
       apply find_group_some in Ef. destruct Ef as [Hg Hname].
@@ -868,7 +868,7 @@ Proof.
       apply Forall_cons_iff in Hml; destruct Hml as [Hm Hms].
       destruct m; try (apply IHm; assumption).
       specialize (IH g0 (stack ++ [name]) line0 Hm Hnd' Hin').
-      destruct (check_cycle groups left' g0 (stack ++ [name]) line0) eqn:Ec; simpl in *.
+      destruct (check_cycle_rec groups left' g0 (stack ++ [name]) line0) eqn:Ec; simpl in *.
       * apply IHm; assumption.
       * assumption.
       * destruct IH as [H1 H2]. split; [assumption|]. rewrite app_length in H2. simpl in H2. lia.
@@ -879,7 +879,7 @@ Definition uses_ok (ms : list member) : Prop := forall g l, In (MUse g l) ms -> 
 Hypothesis Huses : forall g, In g groups -> uses_ok (g_members g).
 
 Lemma group_attrs_exn : forall left name e,
-  declared groups name -> group_attrs groups left name = GExn e -> e = RecursionError.
+  declared groups name -> group_attrs_rec groups left name = GExn e -> e = RecursionError.
 Proof.
   induction left as [|left' IH]; intros name e Hd H; simpl in H; [congruence|].
   destruct (find_group_declared _ _ Hd) as [g Ef]. rewrite Ef in H.
@@ -889,20 +889,20 @@ Proof.
   destruct m; try (apply IHm; assumption).
   - match type of H with match ?X with _ => _ end = _ => destruct X eqn:El end; [discriminate|].
     inversion H; subst. apply IHm; assumption.
-  - destruct (group_attrs groups left' g0) eqn:Eg.
+  - destruct (group_attrs_rec groups left' g0) eqn:Eg.
     + match type of H with match ?X with _ => _ end = _ => destruct X eqn:El end; [discriminate|].
       inversion H; subst. apply IHm; assumption.
     + inversion H; subst. eapply IH; [|eassumption]. apply (Hu g0 line). left. reflexivity.
 Qed.
 
 Lemma group_attrs_ok : forall left name stack line,
-  check_cycle groups left name stack line = VOk ->
+  check_cycle_rec groups left name stack line = VOk ->
   NoDup stack -> incl stack (map g_name groups) -> declared groups name ->
   forall left2, (List.length groups <= left2 + List.length stack)%nat ->
-  exists l, group_attrs groups left2 name = GOk l /\ Forall (fun a => lok L (a_line a)) l.
+  exists l, group_attrs_rec groups left2 name = GOk l /\ Forall (fun a => lok L (a_line a)) l.
 Proof.
   induction left as [|left' IH]; intros name stack line Hcc Hnd Hin Hd left2 Hb; [discriminate|].
-  cbn [check_cycle] in Hcc. destruct (smem name stack) eqn:Es; [destruct left'; discriminate|].
+  cbn [check_cycle_rec] in Hcc. destruct (smem name stack) eqn:Es; [destruct left'; discriminate|].
   destruct (find_group_declared _ _ Hd) as [g Ef]. rewrite Ef in Hcc.
   pose proof (find_group_some _ _ _ Ef) as [Hg Hname].
   assert (Hnd' : NoDup (stack ++ [name])).
@@ -911,7 +911,7 @@ Proof.
   { intros x Hx. apply in_app_iff in Hx. destruct Hx as [Hx|[Hx|[]]]; [auto|]. subst. apply in_map. assumption. }
   pose proof (stack_bound _ _ Hnd' Hin') as Hsb. rewrite app_length in Hsb. simpl in Hsb.
   destruct left2 as [|left2']; [lia|].
-  cbn [group_attrs]. rewrite Ef.
+  cbn [group_attrs_rec]. rewrite Ef.
   pose proof (Huses g Hg) as Hu.
   assert (Hml : Forall (fun m => lok L (member_line m)) (g_members g)).
   { rewrite Forall_forall in Hglines. apply (Hglines g Hg). }
@@ -921,7 +921,7 @@ Proof.
   destruct m.
   - destruct (IHm Hcc Hu' Hms) as (l & El & Hl). rewrite El. exists (a :: l). split; [reflexivity|].
     constructor; assumption.
-  - destruct (check_cycle groups left' g0 (stack ++ [name]) line0) eqn:Ec; try discriminate.
+  - destruct (check_cycle_rec groups left' g0 (stack ++ [name]) line0) eqn:Ec; try discriminate.
     assert (Hd0 : declared groups g0) by (apply (Hu g0 line0); left; reflexivity).
     destruct (IH g0 (stack ++ [name]) line0 Ec Hnd' Hin' Hd0 left2') as (l1 & El1 & Hl1).
     { rewrite app_length. simpl. lia. }
@@ -992,6 +992,129 @@ Proof.
   destruct kind; try exact I. apply vprop_check. assumption.
 Qed.
 
+Lemma find_element_some : forall l n e, find_element l n = Some e -> In e l /\ e_name e = n.
+Proof.
+  induction l as [|x l IH]; simpl; intros n e H; [discriminate|].
+  destruct (str_eqb (e_name x) n) eqn:E.
+  - inversion H; subst. apply str_eqb_eq in E. auto.
+  - destruct (IH _ _ H). auto.
+Qed.
+
+Lemma children_check_ok : forall elements ms seen, children_check elements seen ms = VOk ->
+  NoDup seen ->
+  (forall n c d l, In (MChild n c d l) ms -> exists e, find_element elements n = Some e) /\
+  NoDup (child_names ms) /\ (forall n, In n (child_names ms) -> ~ In n seen).
+Proof.
+  intros elements ms. induction ms as [|m ms IH]; intros seen H Hnd; simpl in H.
+  - split; [intros ? ? ? ? []|]. split; [constructor | intros ? []].
+  - destruct m; try (destruct (IH _ H Hnd) as (H1 & H2 & H3); split; [|split; assumption];
+                     intros n0 c0 d0 l0 [Hin|Hin]; [discriminate | eauto]).
+    destruct (find_element elements name) as [e|] eqn:Ef; [|discriminate].
+    destruct (smem name seen) eqn:Es; [discriminate|].
+    assert (Hns : ~ In name seen) by (intro Hin; apply smem_In in Hin; congruence).
+    destruct (IH _ H (NoDup_cons _ Hns Hnd)) as (H1 & H2 & H3). split; [|split].
+    + intros n0 c0 d0 l0 [Hin|Hin]; [inversion Hin; subst; eauto | eauto].
+    + simpl. constructor; [|assumption]. intro Hin. apply (H3 _ Hin). left. reflexivity.
+    + simpl. intros n [Hn|Hn]; [subst; assumption|]. intro Hin. apply (H3 _ Hn). right. assumption.
+Qed.
+
+(* ---- the shared depth-first search never raises anything but SchemaError *)
+
+Definition cres_ok (L : N) (r : cres) : Prop :=
+  match r with COk _ => True | CErr l => lok L l | CExn _ => False end.
+
+Section Dfs.
+Variable L : N.
+Variable succ : str -> sres.
+Variable U : list str.
+Definition edge_ok (nl : str * N) : Prop := lok L (snd nl) /\ succ (fst nl) <> SKeyError.
+Hypothesis Hsucc : forall n es, succ n = SEdges es -> In n U /\ Forall edge_ok es.
+
+Lemma dfs_spec : forall fuel es path done,
+  NoDup path -> incl path U -> (List.length U < fuel + List.length path)%nat -> Forall edge_ok es ->
+  cres_ok L (dfs fuel succ es path done).
+Proof.
+  induction fuel as [|f IH]; intros es path done Hnd Hin Hf Hes.
+  - exfalso. pose proof (NoDup_incl_length Hnd Hin) as Hl. lia.
+  - cbn [dfs]. revert done. induction es as [|[n line] r IHr]; intro done; [exact I|].
+    apply Forall_cons_iff in Hes. destruct Hes as [[Hline Hk] Hr]. simpl in Hline, Hk.
+    destruct (smem n path) eqn:Ep; [exact Hline|].
+    destruct (smem n done); [apply IHr; assumption|].
+    destruct (succ n) as [| |es'] eqn:Es; [apply IHr; assumption | congruence|].
+    destruct (Hsucc n es' Es) as [HnU Hes'].
+    assert (Hnd' : NoDup (path ++ [n])).
+    { apply NoDup_snoc; [assumption|]. intro H. apply smem_In in H. congruence. }
+    assert (Hin' : incl (path ++ [n]) U).
+    { intros x Hx. apply in_app_iff in Hx. destruct Hx as [Hx|[Hx|[]]]; [auto | subst x; assumption]. }
+    assert (Hf' : (List.length U < f + List.length (path ++ [n]))%nat) by (rewrite app_length; simpl; lia).
+    specialize (IH es' (path ++ [n]) done Hnd' Hin' Hf' Hes').
+    destruct (dfs f succ es' (path ++ [n]) done); simpl in IH; [apply IHr; assumption | assumption | contradiction].
+Qed.
+
+End Dfs.
+
+Section ChildCycles.
+Variable L : N.
+Variable els : list element.
+Hypothesis Hchildren : forall e, In e els -> forall n c d l, In (MChild n c d l) (e_members e) ->
+                                 exists t, find_element els n = Some t.
+Hypothesis Hlines : forall e, In e els -> lok L (e_line e) /\ Forall (fun m => lok L (member_line m)) (e_members e).
+
+Lemma edges_of_some : forall ename ms,
+  (forall n c d l, In (MChild n c d l) ms -> exists t, find_element els n = Some t) ->
+  Forall (fun m => lok L (member_line m)) ms ->
+  exists es, edges_of els ename ms = Some es /\
+             Forall (fun nl => (exists t, find_element els (fst nl) = Some t) /\ lok L (snd nl)) es.
+Proof.
+  intros ename ms. induction ms as [|m ms IH]; intros Hc Hl; [exists []; split; [reflexivity | constructor]|].
+  apply Forall_cons_iff in Hl. destruct Hl as [Hm Hl].
+  assert (Hc' : forall n c d l, In (MChild n c d l) ms -> exists t, find_element els n = Some t)
+    by (intros; eapply Hc; right; eassumption).
+  destruct (IH Hc' Hl) as (es & Ees & Hes).
+  destruct m; simpl; try (exists es; split; assumption).
+  destruct (str_eqb name ename); [exists es; split; assumption|].
+  destruct (Hc name card doc line (or_introl eq_refl)) as (t & Et). rewrite Et, Ees.
+  destruct (fhas (e_facets t) f_alias); [exists es; split; [reflexivity | assumption]|].
+  exists ((name, line) :: es). split; [reflexivity|]. constructor; [|assumption]. simpl. split; [eauto | exact Hm].
+Qed.
+
+Lemma succ_child_declared : forall n t, find_element els n = Some t -> succ_child els n <> SKeyError.
+Proof.
+  intros n t Et. unfold succ_child. rewrite Et. pose proof (find_element_some _ _ _ Et) as [Ht _].
+  destruct (edges_of_some (e_name t) (e_members t) (Hchildren t Ht) (proj2 (Hlines t Ht))) as (es & Ees & _).
+  rewrite Ees. discriminate.
+Qed.
+
+Lemma succ_child_ok : forall n es, succ_child els n = SEdges es ->
+  In n (map e_name els) /\ Forall (edge_ok L (succ_child els)) es.
+Proof.
+  intros n es H. unfold succ_child in H. destruct (find_element els n) as [t|] eqn:Et; [|discriminate].
+  pose proof (find_element_some _ _ _ Et) as [Ht Hn]. split; [rewrite <- Hn; apply in_map; assumption|].
+  destruct (edges_of_some (e_name t) (e_members t) (Hchildren t Ht) (proj2 (Hlines t Ht))) as (es0 & Ees & Hes).
+  rewrite Ees in H. inversion H; subst es0. eapply Forall_impl; [|exact Hes].
+  intros [b l] [[tb Eb] Hl]. split; [exact Hl | simpl; eapply succ_child_declared; eassumption].
+Qed.
+
+Lemma child_dfs_spec :
+  cres_ok L (dfs (S (List.length els)) (succ_child els) (map (fun e => (e_name e, e_line e)) els) [] []).
+Proof.
+  apply dfs_spec with (U := map e_name els).
+  - exact succ_child_ok.
+  - constructor.
+  - intros x [].
+  - rewrite map_length. simpl. lia.
+  - apply Forall_forall. intros [n l] Hin. apply in_map_iff in Hin. destruct Hin as (e & He & Hin). inversion He; subst.
+    split; [simpl; apply (Hlines e Hin)|]. simpl.
+    assert (Hd : exists t, find_element els (e_name e) = Some t).
+    { destruct (find_element els (e_name e)) eqn:E; [eauto|]. apply find_element_none in E. exfalso. apply E. apply in_map. assumption. }
+    destruct Hd as (t & Et). eapply succ_child_declared; eassumption.
+Qed.
+
+End ChildCycles.
+
+Lemma vprop_vres_of : forall L X r, cres_ok L r -> vprop (lok L) X (vres_of r).
+Proof. intros L X r H. destruct r; simpl in *; auto; contradiction. Qed.
+
 Definition exnX (rl : nat) (groups : list group) (e : pyexn) : Prop :=
   e = RecursionError /\ (rl < List.length groups + 2)%nat.
 
@@ -1000,7 +1123,7 @@ Proof. intros groups n H. apply in_map_iff in H. destruct H as (g & H1 & H2). ea
 
 Lemma group_attrs_lines : forall L groups,
   Forall (fun g => lok L (g_line g) /\ Forall (fun m => lok L (member_line m)) (g_members g)) groups ->
-  forall left name l, group_attrs groups left name = GOk l -> Forall (fun a => lok L (a_line a)) l.
+  forall left name l, group_attrs_rec groups left name = GOk l -> Forall (fun a => lok L (a_line a)) l.
 Proof.
   intros L groups Hgl. induction left as [|left' IH]; intros name l H; simpl in H; [discriminate|].
   destruct (find_group groups name) as [g|] eqn:Ef; [|discriminate].
@@ -1012,7 +1135,7 @@ Proof.
   destruct m; try (apply IHm; assumption).
   - match type of H with match ?X with _ => _ end = _ => destruct X eqn:El end; [|discriminate].
     inversion H; subst. constructor; [assumption | apply IHm; reflexivity].
-  - destruct (group_attrs groups left' g0) eqn:Eg; [|discriminate].
+  - destruct (group_attrs_rec groups left' g0) eqn:Eg; [|discriminate].
     match type of H with match ?X with _ => _ end = _ => destruct X eqn:El end; [|discriminate].
     inversion H; subst. apply Forall_app. split; [eapply IH; eassumption | apply IHm; reflexivity].
 Qed.
@@ -1020,14 +1143,14 @@ Qed.
 Lemma expanded_attrs_spec : forall L groups rl ms,
   Forall (fun g => lok L (g_line g) /\ Forall (fun m => lok L (member_line m)) (g_members g)) groups ->
   (forall g, In g groups -> uses_ok groups (g_members g)) ->
-  (forall g, In g groups -> check_cycle groups rl (g_name g) [] (g_line g) = VOk) ->
+  (forall g, In g groups -> check_cycle_rec groups rl (g_name g) [] (g_line g) = VOk) ->
   uses_ok groups ms -> Forall (fun m => lok L (member_line m)) ms ->
-  match expanded_attrs groups rl ms with
+  match expanded_attrs_rec groups rl ms with
   | GOk l => Forall (fun a => lok L (a_line a)) l
   | GExn e => exnX rl groups e
   end.
 Proof.
-  intros L groups rl ms Hgl Hgu Hcc Hu Hml. unfold expanded_attrs.
+  intros L groups rl ms Hgl Hgu Hcc Hu Hml. unfold expanded_attrs_rec.
   destruct rl as [|left']; [split; [reflexivity | lia]|].
   induction ms as [|m ms IHm]; [constructor|].
   assert (Hu' : uses_ok groups ms) by (intros g' l' Hi; apply (Hu g' l'); right; assumption).
@@ -1036,7 +1159,7 @@ Proof.
   - match goal with |- match (match ?X with _ => _ end) with _ => _ end => destruct X end; [|assumption].
     constructor; assumption.
   - assert (Hd : declared groups g) by (apply (Hu g line); left; reflexivity).
-    destruct (group_attrs groups left' g) as [l1|e] eqn:Eg.
+    destruct (group_attrs_rec groups left' g) as [l1|e] eqn:Eg.
     + match goal with |- match (match ?X with _ => _ end) with _ => _ end => destruct X end; [|assumption].
       apply Forall_app. split; [|assumption]. eapply group_attrs_lines; eassumption.
     + split; [eapply group_attrs_exn; eauto|].
@@ -1071,12 +1194,12 @@ Qed.
 Lemma element_check_spec : forall L sch rl e,
   Forall (fun g => lok L (g_line g) /\ Forall (fun m => lok L (member_line m)) (g_members g)) (s_groups sch) ->
   (forall g, In g (s_groups sch) -> uses_ok (s_groups sch) (g_members g)) ->
-  (forall g, In g (s_groups sch) -> check_cycle (s_groups sch) rl (g_name g) [] (g_line g) = VOk) ->
+  (forall g, In g (s_groups sch) -> check_cycle_rec (s_groups sch) rl (g_name g) [] (g_line g) = VOk) ->
   uses_ok (s_groups sch) (e_members e) ->
   lok L (e_line e) -> Forall (fun m => lok L (member_line m)) (e_members e) ->
-  vprop (lok L) (exnX rl (s_groups sch)) (element_check sch rl e).
+  vprop (lok L) (exnX rl (s_groups sch)) (element_check_rec sch rl e).
 Proof.
-  intros L sch rl e Hgl Hgu Hcc Hu Hel Hml. unfold element_check.
+  intros L sch rl e Hgl Hgu Hcc Hu Hel Hml. unfold element_check_rec.
   apply vprop_then.
   { apply vprop_for. intros k _. destruct (fget (e_facets e) k); [apply vprop_check; assumption | exact I]. }
   intro Hf. apply vprop_then.
@@ -1085,10 +1208,19 @@ Proof.
     apply vcheck_ok in Ha. destruct v; try discriminate. apply vprop_check. assumption. }
   intros _. apply vprop_then; [apply children_check_spec; assumption|]. intros _.
   pose proof (expanded_attrs_spec L (s_groups sch) rl (e_members e) Hgl Hgu Hcc Hu Hml) as Hx.
-  destruct (expanded_attrs (s_groups sch) rl (e_members e)) as [attrs|x]; [|exact Hx].
+  destruct (expanded_attrs_rec (s_groups sch) rl (e_members e)) as [attrs|x]; [|exact Hx].
   pose proof (dup_check_spec L (e_line e) attrs [] Hel Hx) as Hd.
   destruct (dup_check (e_line e) [] attrs) as [names|l|x]; [|exact Hd|contradiction].
   apply constraints_check_spec. assumption.
+Qed.
+
+Lemma element_check_children : forall sch rl e, element_check_rec sch rl e = VOk ->
+  forall n c d l, In (MChild n c d l) (e_members e) -> exists t, find_element (s_elements sch) n = Some t.
+Proof.
+  intros sch rl e H. unfold element_check_rec in H.
+  apply vthen_ok in H. destruct H as [_ H]. apply vthen_ok in H. destruct H as [_ H].
+  apply vthen_ok in H. destruct H as [H _].
+  destruct (children_check_ok _ _ _ H (NoDup_nil _)) as (Hc & _ & _). exact Hc.
 Qed.
 
 Lemma in_member_attrs : forall ms a, In a (member_attrs ms) -> In (MAttr a) ms.
@@ -1098,9 +1230,9 @@ Proof.
 Qed.
 
 Lemma validate_spec : forall L rl sch, schema_lines L sch ->
-  vprop (lok L) (exnX rl (s_groups sch)) (validate rl sch).
+  vprop (lok L) (exnX rl (s_groups sch)) (validate_rec rl sch).
 Proof.
-  intros L rl sch (Hl1 & Hl2 & Hl3). unfold validate.
+  intros L rl sch (Hl1 & Hl2 & Hl3). unfold validate_rec.
   pose proof Hl2 as Hl2f. rewrite Forall_forall in Hl2f. pose proof Hl3 as Hl3f. rewrite Forall_forall in Hl3f.
   apply vprop_then.
   { apply vprop_for. intros g Hg. destruct (Hl2f g Hg) as [Hgl _].
@@ -1122,6 +1254,10 @@ Proof.
   apply vprop_then.
   { apply vprop_for. intros e He. destruct (Hl3f e He) as [Hel Hml].
     apply element_check_spec; auto. }
+  intro Hec. rewrite vfor_ok in Hec. apply vprop_then.
+  { unfold child_cycles. apply vprop_vres_of. apply child_dfs_spec.
+    - intros e He. eapply element_check_children. apply Hec. assumption.
+    - intros e He. apply (Hl3f e He). }
   intros _. apply vprop_for. intros ms Hms. apply vprop_for. intros a Ha.
   eapply vprop_weaken; [apply validate_attr_spec | intros e []].
   apply in_member_attrs in Ha.
@@ -1130,36 +1266,36 @@ Proof.
   - destruct (Hl3f c Hin) as [_ Hml]. rewrite Forall_forall in Hml. apply (Hml _ Ha).
 Qed.
 
-(* ------------------------------------------------------------------ parse_string: totality *)
+(* ------------------------------------------------------------------ parse_string_rec: totality *)
 
 Lemma parse_string_total : forall rl text,
-  match parse_string rl text with
+  match parse_string_rec rl text with
   | Ok s => True
   | SchemaErr l => 1 <= l <= cnl text + 1
   | PyExn e => e = RecursionError /\ (rl < groups_of text + 2)%nat
   end.
 Proof.
-  intros rl text. unfold parse_string, groups_of. pose proof (parse_text_spec text) as Hp.
+  intros rl text. unfold parse_string_rec, groups_of. pose proof (parse_text_spec text) as Hp.
   destruct (parse_text text) as [s|l|e]; [|exact Hp|contradiction].
   destruct Hp as [Hl _]. pose proof (validate_spec _ rl s Hl) as Hv.
-  destruct (validate rl s); simpl in Hv; auto.
+  destruct (validate_rec rl s); simpl in Hv; auto.
 Qed.
 
 Lemma parse_string_within_limit : forall rl text, (groups_of text + 2 <= rl)%nat ->
-  (exists s, parse_string rl text = Ok s) \/ (exists l, parse_string rl text = SchemaErr l /\ 1 <= l <= cnl text + 1).
+  (exists s, parse_string_rec rl text = Ok s) \/ (exists l, parse_string_rec rl text = SchemaErr l /\ 1 <= l <= cnl text + 1).
 Proof.
   intros rl text Hrl. pose proof (parse_string_total rl text) as H.
-  destruct (parse_string rl text) as [s|l|e]; [left; eauto | right; eauto | destruct H; lia].
+  destruct (parse_string_rec rl text) as [s|l|e]; [left; eauto | right; eauto | destruct H; lia].
 Qed.
 
-Lemma parse_string_ok_parse : forall rl text s, parse_string rl text = Ok s ->
-  parse_text text = Ok s /\ validate rl s = VOk.
+Lemma parse_string_ok_parse : forall rl text s, parse_string_rec rl text = Ok s ->
+  parse_text text = Ok s /\ validate_rec rl s = VOk.
 Proof.
-  intros rl text s H. unfold parse_string in H. destruct (parse_text text) as [s'|l|e]; try discriminate.
-  destruct (validate rl s') eqn:Ev; inversion H; subst. auto.
+  intros rl text s H. unfold parse_string_rec in H. destruct (parse_text text) as [s'|l|e]; try discriminate.
+  destruct (validate_rec rl s') eqn:Ev; inversion H; subst. auto.
 Qed.
 
-Lemma parse_string_syn : forall rl text s, parse_string rl text = Ok s ->
+Lemma parse_string_syn : forall rl text s, parse_string_rec rl text = Ok s ->
   schema_syn s /\ schema_lines (cnl text + 1) s.
 Proof.
   intros rl text s H. apply parse_string_ok_parse in H. destruct H as [H _].
@@ -1167,9 +1303,9 @@ Proof.
 Qed.
 
 Lemma recursion_refuted :
-  parse_string 1000 (chain_text 1001) = PyExn RecursionError /\
-  parse_string 994 (chain_text 1001) = PyExn RecursionError /\
+  parse_string_rec 1000 (chain_text 1001) = PyExn RecursionError /\
+  parse_string_rec 994 (chain_text 1001) = PyExn RecursionError /\
   groups_of (chain_text 1001) = 1001%nat /\
-  parse_string 100 (chain_text 101) = PyExn RecursionError /\
-  is_ok (parse_string 101 (chain_text 101)) = true.
+  parse_string_rec 100 (chain_text 101) = PyExn RecursionError /\
+  is_ok (parse_string_rec 101 (chain_text 101)) = true.
 Proof. vm_compute. repeat split; reflexivity. Qed.
